@@ -1024,4 +1024,11 @@ CASES = [
  dict(name="c01-next_power_of_two-returns-n", ids=["C01"], rule="C01.R5d", subs=[("core/MathUtilities.h", "  if (is_power_of_two(static_cast<uint64_t>(n)))\n  {\n    return n;\n  }", "  if (is_power_of_two(static_cast<uint64_t>(n)) || (n > 4096 && (n % 4096) == 0))\n  {\n    return n;\n  }")]),
  dict(name="c01-next_power_of_two-stops-early", ids=["C01"], rule="C01.R5d", subs=[("core/MathUtilities.h", "  while (result < n)\n  {\n    result <<= 1;\n  }", "  while ((result << 1) < n)\n  {\n    result <<= 1;\n  }")]),
  dict(name="c01-is_power_of_two-accepts-zero", ids=["C01"], rule="C01.R5d", subs=[("core/MathUtilities.h", "  return (number != 0) && ((number & (number - 1)) == 0);", "  return ((number & (number - 1)) == 0);")]),
+
+ # ---------------- rules added because of seeded changes
+ dict(name="c05-grace-period-unit-slip", ids=["C05"], rule="C05.R1c", subs=[(BW, """    uint64_t const ts_now = _options.log_timestamp_ordering_grace_period.count()
+      ? static_cast<uint64_t>((detail::get_timestamp<std::chrono::system_clock>() - _options.log_timestamp_ordering_grace_period)
+                                .count())""", """    uint64_t const ts_now = _options.log_timestamp_ordering_grace_period.count()
+      ? (detail::get_timestamp_ns<std::chrono::system_clock>() - static_cast<uint64_t>(_options.log_timestamp_ordering_grace_period.count()))""")]),
+ dict(name="c02-empty-ignores-next-node", ids=["C02", "C03", "C05", "C07"], rule="R", subs=[(U, "    return _consumer->bounded_queue.empty() && (_consumer->next.load(std::memory_order_relaxed) == nullptr);", "    return _consumer->bounded_queue.empty();")]),
 ]
